@@ -11,10 +11,12 @@ C14_COLOURS = "[style.colors]\nprimary = \"#000000\"\nerror = \"#FFfe01\"\nhighl
 PROPS = {
     "C01": {
         "timeouts_not_mine": True,
-        "lean_modules": ["Props.Clean", "Props.Cells", "Props.Facts19", "Props.C01p"],
+        "lean_modules": ["Props.Clean", "Props.Cells", "Props.Facts19", "Props.C01p", "Props.Gen01p", "Props.GenT01p"],
         "groups": [{"name": "render", "quick": 2500, "thorough": 60000}, {"name": "C01misc", "quick": 2000, "thorough": 60000},
                    {"name": "C14", "quick": 1500, "thorough": 40000}, {"name": "C06", "quick": 1200, "thorough": 30000, "workers": 12},
-                   {"name": "present", "quick": 800, "thorough": 20000, "workers": 12}],
+                   {"name": "present", "quick": 800, "thorough": 20000, "workers": 12},
+                   # whole worlds browsed over the network: items whose error texts quote what a server sent (junk status lines)
+                   {"name": "C02P", "quick": 500, "thorough": 15000, "workers": 8}],
         "rule": "documents from grammars of HTML (inline styles, links, media, blockquotes, lists, headings, pre, hr, unknown tags, character-reference and raw control-character injections), Markdown, gemtext and plain text with URLs x sequences of 1..4 widths (-3..250); "
                 "error text quoting hostile status lines / media types / raw control characters through style.Problem; Scrub and SetLength on raw text with C0, DEL, C1, ESC, tabs; style expressions followed by layout pipelines; "
                 "C01misc: every second op takes the next of all C0 / DEL / C1 code points (then bidi, zero-width, line-separator, tag and annotation characters, which are printable for code and model alike), alone or as the introducer of a CSI / OSC / DCS / APC / PM / SOS sequence with BEL / ST terminators, at the start, in the middle, at the end and right at / before / after the cut of SetLength, inside the error texts that quote server bytes; "
@@ -53,7 +55,9 @@ PROPS = {
                    {"name": "render", "quick": 600, "thorough": 15000, "workers": 6, "config": C14_COLOURS},
                    {"name": "presentP", "quick": 600, "thorough": 20000, "workers": 12},
                    # whole frames of the real interface (status line, cut and centred item texts): frames_neutral
-                   {"name": "C07", "quick": 96, "thorough": 2500, "workers": 16}],
+                   {"name": "C07", "quick": 96, "thorough": 2500, "workers": 16},
+                   # whole worlds browsed over the network: items whose error texts quote what a server sent (junk status lines)
+                   {"name": "C02P", "quick": 500, "thorough": 15000, "workers": 8}],
         "rule": "style expressions (nesting and concatenation of the eight style functions over texts with newlines at the start, at the end and doubled, blanks of every unicode.IsSpace kind, wide, combining and invisible characters, sentences long enough to wrap; a third of them at least three levels deep around already styled concatenations that span line breaks) "
                 "optionally followed by 0..3 (one in ten: 4..7) layout steps (wrap, dumbwrap, pad, indent with seven prefixes incl. a styled one, snip to heights 0..10, quote, header of levels 0..7, bullet, code block, link and linkblock with numbers of 1..10 digits, a further style function around the laid-out text) at widths 1..24 and 0, 40..250; "
                 "run under the default colours and under a configuration with four other colours (the colours in force travel with the op); a terminal state machine is run on the implementation's output: per-character attributes must equal the enclosing style functions, and no attribute may be active at a line break or at the end; "
@@ -77,7 +81,9 @@ PROPS = {
     },
     "C06": {
         "groups": [{"name": "C06", "quick": 1500, "thorough": 40000, "workers": 12}, {"name": "renderdeep", "quick": 192, "thorough": 8000, "workers": 12},
-                   {"name": "render", "quick": 800, "thorough": 20000}, {"name": "presentP", "quick": 800, "thorough": 20000, "workers": 12}],
+                   {"name": "render", "quick": 800, "thorough": 20000}, {"name": "presentP", "quick": 800, "thorough": 20000, "workers": 12},
+                   # asking for an item's children in several steps (continuations, offsets into a page): every step returns
+                   {"name": "C10P", "quick": 800, "thorough": 20000, "workers": 8}],
         "rule": "JSON objects with the ActivityStreams keys filled with right- and wrong-typed values (types from all kinds incl. Tombstone/bogus, markup bodies in the four media types incl. 10..70 nested blockquotes, huge/negative/fractional numbers, malformed URLs and timestamps, embedded parents up to depth 3, collections with bogus entries, dead references to a closed port), built as post/actor/activity/any and then every Tangible method called at widths -50..300 and link numbers 0, +-1, 2^31, +-2^63; deep nesting of every block/inline tag to depth 5..65 at widths -1..80; "
                 "one renderdeep case in three is wide rather than deep (predicate-only): single lines of 10^4..10^5 characters in all four markups (styled stretches up to 14 000 characters), 60..3000 siblings (paragraphs, line breaks, list items, bold words, links, images, rules, headings, table cells, gemtext and plain-text lines), attribute values of 5 000..50 000 characters (href, src, alt, title, unknown attributes, 300 attributes on one element), "
                 "ordinary documents at widths 300..4096, 65535, 2^31-1, 2^31, 2^32+7, 2^62, 2^63-1, -80, -65535, -2^31, -2^63+70000 (documents with <pre> or <hr>, whose output is as wide as the width: 300..2000), inline nesting of 50..500 levels around a few characters, <pre> / fenced blocks of 10..100 short lines with lines x width <= 8000; "
@@ -146,7 +152,7 @@ PROPS = {
         "shrink_budget": 3,
     },
     "C03": {
-        "lean_modules": ["Props.Facts03", "Props.Gen03m", "Props.GenT03m", "Props.Gen03", "Props.GenT03"],
+        "lean_modules": ["Props.Facts03", "Props.Gen03m", "Props.GenT03m", "Props.Gen03", "Props.GenT03", "Props.Gen04"],
         "groups": [{"name": "C03", "quick": 1200, "thorough": 40000, "workers": 8},
                    # the same worlds and sequences in processes whose cache holds 1, 2, 3 and 5 entries: eviction and re-fetch
                    {"name": "C03", "quick": 96, "thorough": 3000, "workers": 2, "config": "[network]\ncache_size = 1\n"},
@@ -154,7 +160,11 @@ PROPS = {
                    {"name": "C03", "quick": 96, "thorough": 3000, "workers": 2, "config": "[network]\ncache_size = 3\n"},
                    {"name": "C03", "quick": 96, "thorough": 3000, "workers": 2, "config": "[network]\ncache_size = 5\n"},
                    # several askers of one URL at once, document fetches and webfinger lookups mixed
-                   {"name": "C03same", "quick": 48, "thorough": 1500, "workers": 8, "config": "[network]\ntimeout_seconds = 1\n"}],
+                   {"name": "C03same", "quick": 48, "thorough": 1500, "workers": 8, "config": "[network]\ntimeout_seconds = 1\n"},
+                   # whole worlds browsed (items built from the documents the cache hands out), then every document fetched again
+                   {"name": "C02", "quick": 300, "thorough": 10000, "workers": 8},
+                   # items built twice from one decoded document: the document is afterwards what it was
+                   {"name": "rebuild", "quick": 400, "thorough": 15000, "workers": 12}],
         "rule": "status / Content-Type / Location lines and header blocks from a grammar with mutations (case, blanks, CR, missing newline, odd versions and codes); worlds of 1..4 documents and 0..22 redirects over five loopback TLS hosts plus a host reached by name, one by IPv6 literal and one on the default port "
                 "(relative ('x', './x', '../d/x', '//host/x') and cross-host Locations, Locations with fragments, non-https hops, missing/unparsable Location, two Location lines, a Location on a 2xx/4xx response, self loops and cycles, every 3xx code from 300 to 310 and 399, status codes next to 200-203, "
                 "odd status lines, content types, bodies incl. nesting beyond the decoder's limit, two values, duplicate keys, a BOM) under redirect budgets 0, 1, 2, 3, 5 and 20 with chains of budget-1, budget, budget+1 and budget+2 hops fetched cold, with the final document cached, with the last redirect cached and with every link cached; "
@@ -167,12 +177,14 @@ PROPS = {
         "assumptions": ["servers unchanged between fetches (the `Env` is fixed)"],
     },
     "C04": {
-        "lean_modules": ["Props.Facts04", "Props.Facts04b"],
+        "lean_modules": ["Props.Facts04", "Props.Facts04b", "Props.Gen04", "Props.GenT04"],
         "groups": [{"name": "C04", "quick": 1200, "thorough": 30000, "workers": 8},
                    # redirect worlds (non-https hops, relative and cross-host Locations): what goes on the wire there
                    {"name": "C03", "quick": 400, "thorough": 10000, "workers": 8},
                    # every request sent while whole worlds are browsed (identifiers with fragments, relative references, redirects)
-                   {"name": "C02", "quick": 400, "thorough": 12000, "workers": 8}],
+                   {"name": "C02", "quick": 400, "thorough": 12000, "workers": 8},
+                   # several webfinger lookups in flight at once, for accounts on different hosts (a feed of @user@host sources opening)
+                   {"name": "C04par", "quick": 120, "thorough": 4000, "workers": 8}],
         "rule": "fetches of URLs with hostile paths and queries (raw and encoded CR/LF and LF alone, a whole second request encoded in path or query, spaces, %00, fragments, escaped delimiters %2F %3F %23 %25, broken escapes, non-ASCII, brackets and braces, dot segments, request targets of 1.5 kB to 280 kB), "
                 "userinfo of every shape (also carrying encoded CR/LF or a header name), upper-case scheme, non-https and look-alike schemes, scheme-less references, authorities spelled other ways (a name in other letter case or with a trailing dot, IPv6 literals in two spellings, with a zone, IPv4-mapped; the default port absent, written, empty, with a leading zero; a wrong port; IDN and percent-encoded names), "
                 "redirects to plaintext (absolute, scheme-relative, upper-case) and to Locations carrying CR/LF, userinfo or a tab, a plaintext canary listener; webfinger lookups with hostile account and domain parts (CR, LF, CR/LF raw and encoded, tabs, NUL, spaces, '#', '?', userinfo, unresolvable names, 4.8 kB accounts, the name / IPv6 / default-port hosts); "
@@ -185,7 +197,7 @@ PROPS = {
         "shrink_budget": 4,
     },
     "C05": {
-        "lean_modules": ["Props.Facts04"],
+        "lean_modules": ["Props.Facts04", "Props.Gen04", "Props.GenT04"],
         "groups": [{"name": "C05", "quick": 160, "thorough": 6000, "workers": 16, "config": "[network]\ntimeout_seconds = 1\n"},
                    # the same faults under another timeout: the bounds are stated in the configured value, and a
                    # response that needs 1.0..1.4 s is a document there
@@ -226,7 +238,9 @@ PROPS = {
         "lean_modules": ["Props.Facts11", "Props.Gen11", "Props.GenT11"],
         "groups": [{"name": "C11", "quick": 4000, "thorough": 150000},
                    # feeds over simulator-served actors and collections, through splicer.NewSplicer and the UI
-                   {"name": "C07", "quick": 128, "thorough": 4000, "workers": 16}],
+                   {"name": "C07", "quick": 128, "thorough": 4000, "workers": 16},
+                   # the order of a feed's sources as the configuration file lists them is the order the splicer is given
+                   {"name": "C19", "quick": 1500, "thorough": 40000}],
         "rule": "0..4 sources of 0..7 items, one of them sometimes 15..44 items long (newest-first with ties, or unsorted; missing timestamps; empty and nil sources; the same item listed by two sources) over exact-delivery synthetic containers, flat or paged like a collection (every page a container of its own, continuation = page + offset); timestamp classes: whole seconds, differences below one second, equal instants written in different zones, far past / far future around and before the zero time, every source carrying the same few instants; x scripts of 1..6 harvests (sizes 0..6 and 1 / total-1 / total / total+1, start offsets, 'again' = the same position asked twice, 'old' = an earlier continuation asked after newer ones exist, 'par' = four concurrent askers); "
                 "non-trivial = at least two sources and three delivered items; distinct by op content",
         "trusted": ["slice aliasing in Splicer.clone (shared backing arrays) is modelled by value semantics; 'again' steps re-harvest old positions to exercise it",
@@ -256,7 +270,9 @@ PROPS = {
                    # the accessors called from many goroutines at once, as the constructors of a page's items do
                    {"name": "C17par", "quick": 40, "thorough": 2000, "workers": 4},
                    # documents as they arrive: fetched, decoded by jtp.Get, refused as a whole when a number does not fit
-                   {"name": "C03", "quick": 300, "thorough": 8000, "workers": 4}],
+                   {"name": "C03", "quick": 300, "thorough": 8000, "workers": 4},
+                   # the decoded document after items were built from it: value for value what the accessors were given
+                   {"name": "rebuild", "quick": 600, "thorough": 20000, "workers": 12}],
         "rule": "JSON documents with null/bool/number/string/array/object under keys k, m, z (numbers from two edge pools around 0, +-1, signed zeros, subnormals, 2^31, 2^32, 2^53, 2^63, 2^64 and their neighbouring doubles, zero fractions, cancelling exponents, over-long digit strings, random bit patterns and integers around powers of two; strings with control characters, timestamps, URLs, media types) x every accessor x present/absent keys; "
                 "half of the cases choose the accessor first and file under the key a value of the vocabulary it parses (RFC 3339 corners: leap second, offsets to +-24:00, lower-case t/z, fraction digits with '.' and ',', years 0000..10000, impossible dates, padding; well-formed timestamps and token/token media types drawn field by field; about 120 URLs that parse oddly; the four renderable media types and their near misses for GetMarkup), "
                 "then possibly damage it: C0/C1/ESC/bidi/zero-width characters at one to three places, only-removed characters, case changes, blank padding, tails up to 100 000 characters, doubling; strings spelled with \\u escapes, surrogate pairs and lone surrogates; natural-language maps (tags empty, und, upper case, malformed), @value objects, nesting to depth 100, arrays and objects of thousands of members; "
@@ -287,7 +303,7 @@ PROPS = {
                         "Go int overflow of feed bounds is out of scope"],
     },
     "C19": {
-        "lean_modules": ["Props.Facts19", "Props.Facts19b", "Props.Gen19"],
+        "lean_modules": ["Props.Facts19", "Props.Facts19b", "Props.Gen19", "Props.Gen19h", "Props.GenT19h"],
         "groups": [{"name": "C19", "quick": 3000, "thorough": 60000},
                    {"name": "C19x", "quick": 4000, "thorough": 16777216, "workers": 16},
                    # processes started with the smallest accepted sizes, then used: fetches under cache_size = 1 and 2
@@ -299,11 +315,11 @@ PROPS = {
         "rule": "hexToAnsi on valid, near-valid (one bad digit, signs, underscores, wrong length, non-ASCII digits) and random strings; configuration files generated value-first (colours, preload_amount/timeout_seconds/cache_size from {-1000..1000} and from the edges of int32, of a duration in seconds and of int64, key names in other letter cases, values of other TOML types (durations as strings, floats, booleans, hex/octal/underscored integers, inline tables, dotted keys: the model starts from what the decoder produced), hooks of 0..3 arguments, unknown keys/tables, syntax errors, missing file) "
                 "then serialised to TOML and loaded by the real parse+postprocess; C19x walks the 16^6 colour space (a stride sample in quick, all of it in thorough); non-trivial = colour accepted / configuration not rejected by TOML itself; distinct by op content",
         "trusted": ["BurntSushi/toml decoding (the model starts from the decoded values; TOML-level rejections are the generator's ground truth)",
-                    "strconv.ParseUint(.,16,0) on two bytes and strconv.Itoa as modelled"],
+                    "strconv.ParseUint(.,16,0) on two bytes and strconv.Itoa as modelled; for the translated hexToAnsi/parse (Gen19h): Go strings as byte lists bridged to the model by core's UTF-8 encoding, the loop of strconv.ParseUint for an explicit base as transcribed in Model/GoBytes.lean, toml.DecodeFile as a parameter (struct written, metadata, error)"],
         "assumptions": ["Config.Safe is the only configuration hypothesis used by the panic-freedom theorems of C06/C07/C20"],
     },
     "C20": {
-        "lean_modules": ["Props.Facts19", "Props.C20b", "Props.Facts20", "Props.Gen20", "Props.GenT20", "Props.Gen03m", "Props.GenT03m", "Props.Gen12", "Props.GenT12"],
+        "lean_modules": ["Props.Facts19", "Props.C20b", "Props.Facts20", "Props.Gen20", "Props.GenT20", "Props.Gen20h", "Props.GenT20h", "Props.Gen03m", "Props.GenT03m", "Props.Gen12", "Props.GenT12"],
         "groups": [{"name": "C20", "quick": 600, "thorough": 20000, "workers": 12},
                    {"name": "media", "quick": 600, "thorough": 20000, "workers": 12},
                    # configuration files through the real parser: the hook that reaches openExternally is the configured one
@@ -335,7 +351,9 @@ PROPS = {
         "groups": [{"name": "C16", "quick": 6000, "thorough": 200000}, {"name": "C07", "quick": 160, "thorough": 4000, "workers": 16},
                    {"name": "C16x", "quick": 0, "thorough": 7, "workers": 1},
                    # concurrent keys, loads and resizes: every frame as tall as the state says when it is drawn
-                   {"name": "C08", "quick": 24, "thorough": 600, "workers": 12}],
+                   {"name": "C08", "quick": 24, "thorough": 600, "workers": 12},
+                   # the program itself (main.go as shipped) on a pseudo terminal that is resized and typed on
+                   {"name": "mainpty", "quick": 24, "thorough": 600, "workers": 8}],
         "rule": "prefix/centered/suffix of 0..8 styled lines each x heights 1..16; one layout in four with parts of nothing, of up to 40 styled lines, of 100..500 rows or of up to 300 empty lines above, at and below the cursor x heights 1..4, around the size of the centre and of centre + twice the part above / below (where the layout changes its case), the sum of all parts, 2..61 and 100..999; "
                 "ReplaceLastLine on frames of one line, of empty lines only and of hundreds of lines with an empty or a styled status line; status-line SetLength on raw text (control characters, often exactly as long as the width); the C07 sessions (all frames judged: tiny terminals, very tall items, every status line, hook output variants, loading frames drawn during held loads) and the C08 stress (frame height against the state's height at drawing time); "
                 "thorough: C16x = every geometry of 0..7 lines per part (0 = the empty string) x heights 1..16; non-trivial = height exceeds the centred text (buffers are computed); distinct by op content",
@@ -349,7 +367,7 @@ PROPS = {
 
 MANIFEST_TEXT = {
     "C01": {
-        "text": "Lean theorems: Scrub leaves no control character but newline; clean styled text (printable characters, newlines, well-formed SGR around single characters) is terminal-safe and is closed under the whole style layer, every layout function and the HTML/Markdown, gemtext and plain-text renderers for every forest (arbitrary strings in text nodes and attributes), source and width; error text through style.Problem and the status line through SetLength are safe for every message; accepted configurations have well-formed colours. Tied to the code by differential correspondence on the renderers, style.Problem, Scrub, SetLength; the Safe predicate is evaluated on every implementation output.",
+        "text": "Lean theorems: Scrub leaves no control character but newline; clean styled text (printable characters, newlines, well-formed SGR around single characters) is terminal-safe and is closed under the whole style layer, every layout function and the HTML/Markdown, gemtext and plain-text renderers for every forest (arbitrary strings in text nodes and attributes), source and width; error text through style.Problem and the status line through SetLength are safe for every message; accepted configurations have well-formed colours. What an item shows (String, Preview, Name of Post, Actor, Activity, Failure with header, center, supplement, footer, Collection.Size, style.Problem, ansi.Scrub) is translated to Lean on every run (extract/go2lean21.go -> Generated/GoPresent.lean) and proved equal to the presentation model for every field content, width and colours, without panics (Props/Gen01p.lean), so the item-level cleanliness theorems hold of the translated code (Props/GenT01p.lean). Otherwise tied to the code by differential correspondence on the renderers, style.Problem, Scrub, SetLength; the Safe predicate is evaluated on every implementation output.",
         "design_ref": "DESIGN.md §5 C01",
         "note": "Trusted: Lean kernel; correspondence check (testing); x/net/html, goldmark; element names are control-free; URL.Host of dialled hosts.",
         "technique": "Lean 4 proof (Clean invariant, mutual induction over the renderer) + differential correspondence with a safety predicate on every output",
@@ -403,9 +421,9 @@ MANIFEST_TEXT = {
         "technique": "Lean 4 proof (structural recursion on the redirect budget, cache soundness invariant) + differential correspondence against a TLS simulator",
     },
     "C04": {
-        "text": "Lean theorems about the byte template of the only connection.Write: for CR/LF-free request-URI, host and accept the bytes parse (with a strict HTTP/1.0 reader) as exactly one GET with a Host and an Accept header and nothing after the blank line; connections are opened only for https URLs on every hop. Tied to jtp.go/client.go by recording the raw bytes of every connection at a TLS simulator (plus a plaintext canary) for hostile URLs and webfinger handles and comparing them with the template. Partial: TLS, DNS, sockets are not modelled.",
+        "text": "Lean theorems about the byte template of the only connection.Write: for CR/LF-free request-URI, host and accept the bytes parse (with a strict HTTP/1.0 reader) as exactly one GET with a Host and an Accept header and nothing after the blank line; connections are opened only for https URLs on every hop. Tied to jtp.go twice: the statements of Get before the response is read - the cache key and lookup, the scheme test, the dial target, the deadline, the one connection.Write - are translated to Lean on every run (extract/go2lean18.go -> Generated/GoJtpfront.lean: a record of what is dialled, given a deadline, written and closed, in program order) and proved to write exactly the model's request to JoinHostPort(Hostname, Port or 443), never to dial for another scheme, and to be one step of the model's get (Props/Gen04.lean), and the theorems are restated about the code as translated (Props/GenT04.lean); and to jtp.go/client.go by recording the raw bytes of every connection at a TLS simulator (plus a plaintext canary) for hostile URLs and webfinger handles and comparing them with the template. Partial: TLS, DNS, sockets are not modelled.",
         "design_ref": "DESIGN.md §5 C04",
-        "note": "Trusted: Lean kernel; correspondence check (testing); net/url control-byte rejection; crypto/tls; DNS.",
+        "note": "Trusted: Lean kernel; the translator extract/go2lean18.go and its semantics library (Model/GoNet.lean: a *url.URL as the record of what its accessors return, net.JoinHostPort transcribed); correspondence check (testing); net/url control-byte rejection; crypto/tls; DNS.",
         "technique": "Lean 4 proof (byte-level request contract) + differential correspondence on recorded connection bytes",
     },
     "C05": {
@@ -451,7 +469,7 @@ MANIFEST_TEXT = {
         "technique": "Lean 4 proof (character-level case analysis) + differential correspondence, exhaustive colour space in thorough",
     },
     "C20": {
-        "text": "Lean theorems for all hooks, links and media types: argv has the hook's length, the program name is never substituted, an argument is replaced iff it is exactly a placeholder, stdin carries the link iff no %url argument, the link is one verbatim argument; which (link, media type) pair is handed on is proved on pub/link.go as translated to Lean on every run (extract/go2lean5.go -> Generated/GoLink.lean, Props/Gen20.lean, Props/GenT20.lean): the link's own type, else the default of its kind, else the caller's default. Which link a number, o, p or b selects is proved on Post/Actor/Activity.SelectLink, Post.Media, Actor.ProfilePic/Banner as translated (extract/go2lean11.go -> Generated/GoSelect.lean, Props/Gen12.lean, Props/GenT12.lean). Tied to ui.openExternally by running the real function with a dump program as the hook and comparing argv/stdin with the model; the same predicates are checked on the recorded argv.",
+        "text": "Lean theorems for all hooks, links and media types: argv has the hook's length, the program name is never substituted, an argument is replaced iff it is exactly a placeholder, stdin carries the link iff no %url argument, the link is one verbatim argument; which (link, media type) pair is handed on is proved on pub/link.go as translated to Lean on every run (extract/go2lean5.go -> Generated/GoLink.lean, Props/Gen20.lean, Props/GenT20.lean): the link's own type, else the default of its kind, else the caller's default. Which link a number, o, p or b selects is proved on Post/Actor/Activity.SelectLink, Post.Media, Actor.ProfilePic/Banner as translated (extract/go2lean11.go -> Generated/GoSelect.lean, Props/Gen12.lean, Props/GenT12.lean). (*State).openExternally of ui/ui.go itself - the copy of the configured hook, the loop with its index-0 skip and its switch over the placeholder literals, the flag, exec.Command(command[0], command[1:]...), cmd.Stdin under its condition, and the goroutine that reports how the program ended - is translated to Lean on every run (extract/go2lean17.go -> Generated/GoHook.lean) and proved to hand os/exec exactly Hook.build's argv and stdin for every hook, link and media type, to leave Ui.openExternally's state, never to write the configured hook, and to end in Ui.hookDone's state in every mode after success and failure (Props/Gen20h.lean); the C20 theorems hold of the translated code (Props/GenT20h.lean). Also tied to ui.openExternally by running the real function with a dump program as the hook and comparing argv/stdin with the model; the same predicates are checked on the recorded argv.",
         "design_ref": "DESIGN.md §5 C20",
         "note": "Trusted: Lean kernel; correspondence check (testing); os/exec argv passing.",
         "technique": "Lean 4 proof (list induction) + differential correspondence through a recording hook program",
